@@ -250,6 +250,15 @@ def run(cx, tier='quick'):
             c07.check_union(cx, fn, rep, facts)
         if sh == 'union' and t == 'Default':
             c08.check_union(cx, fn, rep, facts)
+    # Default on a union: the literal of the designated field is adjusted to that field's own type (shared with C08)
+    sub8 = Report('C20')
+    c08.check_builder_type_arg(cx, sub8)
+    for fnd in sub8.findings:
+        if 'union' in fnd.where:
+            rep.findings.append(fnd)
+    for r, i, v in sub8.checked:
+        if 'union' in i:
+            rep.checked.append((r, i, v))
     from .c13 import include_own_scanners
     include_own_scanners(cx, facts, rep, ['::debug::', '::partial_eq::', '::hash::', '::clone::', '::default::'])
     from .scope import check_scopes
